@@ -29,6 +29,10 @@ struct Cfg {
     /// a recoverable density error at the first trajectory evaluation of this draw (divergence
     /// exactly at / next to the warmup boundary)
     fault_draw: Option<u64>,
+    /// non-default `dual_average.max_step_size` (an option of the dual-averaging method only)
+    max_step_size: Option<f64>,
+    /// configured step size of the Diag/LowRank MCLMC presets
+    mclmc_step: Option<f64>,
 }
 
 fn key(c: &Cfg) -> String {
@@ -36,7 +40,8 @@ fn key(c: &Cfg) -> String {
         "{:?}/tune{}/method{:?}/jitter{:?}/ssw{}/ew{}/sf{}/seed{}{}",
         c.preset, c.num_tune, c.method, c.jitter, c.step_size_window, c.early_window, c.switch_freq, c.seed,
         c.fault_draw.map(|d| format!("/divergence-in-draw{d}")).unwrap_or_default()
-    )
+    ) + &c.max_step_size.map(|m| format!("/maxstep{m}")).unwrap_or_default()
+        + &c.mclmc_step.map(|m| format!("/mclmcstep{m}")).unwrap_or_default()
 }
 
 fn start_of_final_window(c: &Cfg) -> u64 {
@@ -61,6 +66,8 @@ fn check_one(c: &Cfg, p: &mut Partial) {
         t.switch_freq = Some(c.switch_freq);
     }
     t.maxdepth = Some(5);
+    t.max_step_size = c.max_step_size;
+    t.mclmc_step_size = c.mclmc_step;
     let target = Target::DiagNormal {
         mu: vec![0.3, -1.0, 2.0],
         sigma: vec![0.5, 1.0, 3.0],
@@ -255,6 +262,8 @@ pub fn run(tier: Tier, _replay: Option<String>) -> i32 {
                                 switch_freq: sf,
                                 seed,
                                 fault_draw: None,
+                                max_step_size: None,
+                                mclmc_step: None,
                             });
                         }
                     }
@@ -271,7 +280,31 @@ pub fn run(tier: Tier, _replay: Option<String>) -> i32 {
                     continue;
                 }
                 let method = if preset == Preset::FlowMclmc { Some(StepSizeAdaptMethod::Fixed(0.5)) } else { None };
-                cfgs.push(Cfg { preset, num_tune, num_draws: 5, method, jitter: None, step_size_window: 0.15, early_window: 0.3, switch_freq: 80, seed: 1, fault_draw: Some(fd as u64) });
+                cfgs.push(Cfg { preset, num_tune, num_draws: 5, method, jitter: None, step_size_window: 0.15, early_window: 0.3, switch_freq: 80, seed: 1, fault_draw: Some(fd as u64), max_step_size: None, mclmc_step: None });
+            }
+        }
+    }
+    // base step sizes above the dual-averaging cap: `max_step_size` bounds the dual-averaging
+    // iterates only; a fixed or Adam-adapted step size (and the MCLMC presets' configured one) still
+    // has to be used within its jitter band
+    for preset in Preset::ALL {
+        for num_tune in [0u64, 7, 30] {
+            for jitter in [None, Some(0.1)] {
+                let mut variants: Vec<(Option<StepSizeAdaptMethod>, Option<f64>, Option<f64>)> = vec![];
+                if preset.is_nuts() {
+                    variants.push((Some(StepSizeAdaptMethod::Fixed(0.5)), Some(0.3), None));
+                    variants.push((Some(StepSizeAdaptMethod::Fixed(3.6)), None, None));
+                    variants.push((Some(StepSizeAdaptMethod::Adam), Some(0.05), None));
+                    variants.push((Some(StepSizeAdaptMethod::DualAverage), Some(0.3), None));
+                } else if preset == Preset::FlowMclmc {
+                    variants.push((Some(StepSizeAdaptMethod::Fixed(0.5)), Some(0.3), None));
+                } else {
+                    variants.push((None, Some(0.3), Some(0.5)));
+                    variants.push((None, None, Some(4.0)));
+                }
+                for (method, max_step_size, mclmc_step) in variants {
+                    cfgs.push(Cfg { preset, num_tune, num_draws: 5, method, jitter, step_size_window: 0.15, early_window: 0.3, switch_freq: 80, seed: 1, fault_draw: None, max_step_size, mclmc_step });
+                }
             }
         }
     }
